@@ -11196,15 +11196,84 @@ func ruleConditionalTargetAssignmentsHaveElse(c *core.Ctx) {
 				if !assignsTarget(ind.Args[0]) {
 					continue
 				}
-				l3, ce3, ok3 := emitLit(info, list[i+2])
-				if !ok3 {
+				// the first print on EVERY path that follows the body closes the block: all of them must open an else
+				type closer struct {
+					lit string
+					pos token.Pos
+				}
+				var closers func(rest []ast.Stmt, fuel int) ([]closer, bool)
+				closers = func(rest []ast.Stmt, fuel int) ([]closer, bool) {
+					if fuel <= 0 {
+						return nil, false
+					}
+					for j, s := range rest {
+						if l, ce, ok := emitLit(info, s); ok {
+							return []closer{{l, ce.Pos()}}, true
+						}
+						switch x := s.(type) {
+						case *ast.IfStmt:
+							var out []closer
+							thenRest := append(append([]ast.Stmt{}, x.Body.List...), rest[j+1:]...)
+							if bodyLeaves(x.Body) {
+								thenRest = x.Body.List
+							}
+							a, ok := closers(thenRest, fuel-1)
+							if !ok {
+								return nil, false
+							}
+							out = append(out, a...)
+							var elseRest []ast.Stmt
+							switch e := x.Else.(type) {
+							case *ast.BlockStmt:
+								elseRest = append(append([]ast.Stmt{}, e.List...), rest[j+1:]...)
+							case *ast.IfStmt:
+								elseRest = append([]ast.Stmt{e}, rest[j+1:]...)
+							default:
+								elseRest = rest[j+1:]
+							}
+							b, ok := closers(elseRest, fuel-1)
+							if !ok {
+								return nil, false
+							}
+							return append(out, b...), true
+						case *ast.BlockStmt:
+							return closers(append(append([]ast.Stmt{}, x.List...), rest[j+1:]...), fuel-1)
+						case *ast.ReturnStmt, *ast.BranchStmt:
+							return nil, true // the path leaves without printing: nothing closes the block here (judged where it continues)
+						case *ast.AssignStmt, *ast.DeclStmt, *ast.IncDecStmt, *ast.EmptyStmt:
+							continue
+						default:
+							return nil, false
+						}
+					}
+					return nil, true
+				}
+				cl, decided := closers(list[i+2:], 6)
+				if !decided || len(cl) == 0 {
+					if _, _, ok3 := emitLit(info, list[i+2]); !ok3 && decided {
+						continue
+					}
+					n++
+					k++
+					key := fmt.Sprintf("%s/%s#%d", c.FuncName(d), strings.TrimSpace(strings.SplitN(l1, "(", 2)[0])+" "+strings.TrimSpace(firstWords(l1, 4)), k)
+					c.Undecided(rule, key, list[i+2].Pos(), "the print that closes the conditional assignment could not be determined on every path")
 					continue
 				}
 				n++
 				k++
 				key := fmt.Sprintf("%s/%s#%d", c.FuncName(d), strings.TrimSpace(strings.SplitN(l1, "(", 2)[0])+" "+strings.TrimSpace(firstWords(l1, 4)), k)
-				c.Check(strings.HasPrefix(strings.TrimSpace(l3), "} else"), rule, key, ce3.Pos(), "closed by `} else {`: the target is assigned on both branches",
-					"the printed `if` assigns the target only when its condition holds and is closed by a bare `}`: on the other branch the object the caller reuses for every item of a stream keeps the value of the previous item")
+				var badAt token.Pos
+				for _, x := range cl {
+					if !strings.HasPrefix(strings.TrimSpace(x.lit), "} else") {
+						badAt = x.pos
+					}
+				}
+				at := cl[0].pos
+				if badAt != token.NoPos {
+					at = badAt
+				}
+				c.Check(badAt == token.NoPos, rule, key, at, "closed by `} else {` on every path of the generator: the target is assigned on both branches",
+					"the printed `if` assigns the target only when its condition holds and is closed by a bare `}` (on at least one path of the generator): on the other branch the object the caller reuses for every item of a stream keeps the value of the previous item")
 			}
 			for _, s := range list {
 				ast.Inspect(s, func(m ast.Node) bool {
